@@ -146,6 +146,24 @@ pub fn eval(prop: &PropDef, case: &Value) -> Obs {
       }
     }
   }
+  if std::env::var("RSV_MEMORY_ONLY").is_ok_and(|v| v == "1") {
+    // the concurrent workloads of C18 re-run for C19: only what C19 states
+    // (failed unsafe preconditions, the write-once cache invariant the
+    // lifetime extension rests on, invalid UTF-8) is a C19 violation; a wrong
+    // answer or an ordinary panic is C18's business and must not alarm C19
+    let before = obs.violations.len();
+    obs.violations.retain(|(c, d)| {
+      matches!(
+        c.as_str(),
+        "unsafe_precondition" | "cache_entry_replaced" | "cache_entry_removed" | "cached_map_replaced"
+          | "chunk_invalid_utf8" | "rope_invalid_utf8" | "mappings_not_ascii"
+      ) || d.contains("VERIF-UNSAFE")
+    });
+    let dropped = before - obs.violations.len();
+    if dropped > 0 {
+      obs.count("behavioural_differences_left_to_C18", dropped as u64);
+    }
+  }
   obs
 }
 
